@@ -43,7 +43,9 @@ def _solve_one(task):
     idx, smt2, timeout_ms, kind, want_ground, seed = task
     t0 = time.time()
     res = {'idx': idx, 'backend': 'z3', 'result': 'unknown', 'model': None, 'reason': ''}
-    stages = [max(1500, timeout_ms // 5), timeout_ms] if kind != 'cover' else [timeout_ms]
+    # a short first attempt, then two long ones with different seeds: budgets are sized so that a verdict
+    # does not flip when all cores are busy (slow queries are the unstable ones)
+    stages = [max(2000, timeout_ms // 10), timeout_ms, timeout_ms] if kind != 'cover' else [timeout_ms]
     for n, tmo in enumerate(stages):
         try:
             s, r = _z3_check(smt2, tmo, seed + n)
